@@ -165,6 +165,22 @@ def run(ck: Check, prog: Program) -> None:
     rfj = mprog.func(V20 + '.Response.from_json')
     ck.functions.add(rfj.qualname)
     _c06._field_guards(ck, mprog, rfj)
+    # "a JSON body that is not a valid JSON-RPC response (or response array) raises the deserialisation error"
+    for q_ in (V20 + '.Response.from_json', V20 + '.BatchResponse.from_json'):
+        fq_ = mprog.func(q_)
+        ck.functions.add(fq_.qualname)
+        _c06._container_guard(ck, mprog, fq_)
+    # every single response is related to its request: the validator call in _send is unconditional for calls
+    from .c07 import send_facts
+    from .cfacts import client_program, clients
+    cprog = client_program(prog)
+    for cr in clients(cprog):
+        ck.functions.add(cr.send_impl.qualname)
+        _, sp = send_facts(cprog, cr)
+        bad = [p_ for p_ in sp if 'related' in p_[1]]
+        ck.ob('RELATE-STRICT', f'{cr.cls.name}._send relates every decoded response to its request (validator called unconditionally for calls)', not bad)
+        for rule_, construct, line, msg in bad:
+            ck.finding('RELATE-STRICT', cr.send_impl.qualname, construct, cr.cls.module.rel, line, msg)
     # duplicates: strict ctor default
     binit = prog.func(V20 + '.BatchResponse.__init__')
     dd = binit.param_default('strict')
